@@ -2,7 +2,7 @@
 import os, sys, json
 from . import core, runner
 
-TIERS = {'quick': {'calls': 4000}, 'thorough': {'calls': 200000}}
+TIERS = {'quick': {'calls': 2500}, 'thorough': {'calls': 200000}}
 
 def main(args):
     from . import sim_calls as SC, c12_calls_driver as D
